@@ -10,6 +10,8 @@ import (
 	"math/big"
 	"sort"
 	"strings"
+
+	"com.tuntun.rangers/node/src/utility"
 )
 
 type mAcct struct {
@@ -34,13 +36,16 @@ type mCore struct {
 	Logs    []mLog
 	LogSize uint
 	CurTx   int // transaction context set by Prepare (0 = none yet: zero tx hash, zero block hash)
-	ALAddr  []bool
-	ALSlot  map[[2]int]bool
-	Trans   map[[2]int]int
+	// ERC20 binding of boundName (exists exactly as long as the binding account does)
+	Bound    bool
+	BoundDec uint64
+	ALAddr   []bool
+	ALSlot   map[[2]int]bool
+	Trans    map[[2]int]int
 }
 
 func (c *mCore) copy() mCore {
-	n := mCore{Refund: c.Refund, LogSize: c.LogSize, CurTx: c.CurTx}
+	n := mCore{Refund: c.Refund, LogSize: c.LogSize, CurTx: c.CurTx, Bound: c.Bound, BoundDec: c.BoundDec}
 	n.Acct = make([]mAcct, len(c.Acct))
 	for i, a := range c.Acct {
 		b := a
@@ -84,7 +89,7 @@ func (c *mCore) String() string {
 		}
 		fmt.Fprintf(&w, "}bal=%s;", c.Bal[i])
 	}
-	fmt.Fprintf(&w, "r%d;l%v/%d;tx%d;al%v;", c.Refund, c.Logs, c.LogSize, c.CurTx, c.ALAddr)
+	fmt.Fprintf(&w, "r%d;l%v/%d;tx%d;b%v/%d;al%v;", c.Refund, c.Logs, c.LogSize, c.CurTx, c.Bound, c.BoundDec, c.ALAddr)
 	var s []string
 	for k, v := range c.ALSlot {
 		if v {
@@ -108,10 +113,11 @@ func (c *mCore) String() string {
 type model struct {
 	mCore
 	snaps []mCore
+	bind  *bindCfg // roles of the universe addresses in the binding slices (nil elsewhere)
 }
 
 func (m *model) clone() *model {
-	n := &model{mCore: m.mCore.copy()}
+	n := &model{mCore: m.mCore.copy(), bind: m.bind}
 	for i := range m.snaps {
 		n.snaps = append(n.snaps, m.snaps[i].copy())
 	}
@@ -206,24 +212,26 @@ func (m *model) apply(op Op) {
 		} else {
 			m.Trans[[2]int{op.A, op.S}] = op.V
 		}
-	case kAddFT:
-		a := m.ensure(op.A)
-		if op.V != 0 {
-			cur := new(big.Int).SetBytes(a.Store[slotFT])
-			a.Store[slotFT] = cur.Add(cur, big.NewInt(int64(op.V))).Bytes()
+	case kAddFT, kSubFT, kSetFT:
+		m.ftWrite(op)
+	case kGetFT:
+		m.getFT(op.A, op.S, true)
+	case kGetBinding:
+		// pure query
+	case kBind:
+		// refused if the binding account exists; otherwise the binding account is created with
+		// the three binding slots
+		if n := &m.Acct[m.bind.acct]; !n.Exists {
+			n.Exists = true
+			m.Bound, m.BoundDec = true, uint64(op.V)
 		}
-	case kSubFT:
-		a := m.ensure(op.A)
-		if op.V != 0 && len(a.Store[slotFT]) > 0 {
-			cur := new(big.Int).SetBytes(a.Store[slotFT])
-			if cur.Cmp(big.NewInt(int64(op.V))) >= 0 {
-				a.Store[slotFT] = cur.Sub(cur, big.NewInt(int64(op.V))).Bytes()
-			}
+	case kReadAll:
+		// the full observation ends in GetFT on the token (see getFT for what that query does)
+		if m.bind != nil {
+			m.getFT(m.bind.holder, 1, true)
 		}
-	case kSetFT:
-		m.ensure(op.A).Store[slotFT] = big.NewInt(int64(op.V)).Bytes()
-	case kReadAll, kReadCommitted:
-		// queries: no effect on the abstract state
+	case kReadCommitted:
+		// query: no effect on the abstract state
 	case kSnapshot:
 		m.snaps = append(m.snaps, m.mCore.copy())
 	case kRevert:
@@ -237,5 +245,61 @@ func (m *model) apply(op Op) {
 func (m *model) sub(a int, n int64) {
 	if m.Bal[a].Cmp(big.NewInt(n)) >= 0 {
 		m.Bal[a].Sub(m.Bal[a], big.NewInt(n))
+	}
+}
+
+// ftSlot: where the FT balance of (holder a, token S) lives.  On a bound token it is the
+// balance slot of the bound contract, and every FT call first makes sure that contract has an
+// account object (as the AccountDB does, journaled); otherwise the holder's own FT slot.
+func (m *model) ftSlot(a, tok int, side bool) (acct *mAcct, slot int, bound bool) {
+	if tok == 1 && m.Bound {
+		c := &m.Acct[m.bind.contract]
+		if side {
+			c.Exists = true
+		}
+		return c, slotERC, true
+	}
+	h := &m.Acct[a]
+	if side {
+		h.Exists = true
+	}
+	if tok == 1 {
+		return h, slotFTB, false
+	}
+	return h, slotFT, false
+}
+
+// getFT: the holder's balance; side=true also applies the object creation the query performs.
+func (m *model) getFT(a, tok int, side bool) *big.Int {
+	acct, slot, bound := m.ftSlot(a, tok, side)
+	v := new(big.Int).SetBytes(acct.Store[slot])
+	if bound {
+		return utility.FormatDecimalForRocket(v, int64(m.BoundDec))
+	}
+	return v
+}
+
+func (m *model) ftWrite(op Op) {
+	acct, slot, bound := m.ftSlot(op.A, op.S, true)
+	amt := ftAmount(op)
+	if bound {
+		amt = utility.FormatDecimalForERC20(amt, int64(m.BoundDec))
+	}
+	cur := new(big.Int).SetBytes(acct.Store[slot])
+	switch op.K {
+	case kSetFT:
+		acct.Store[slot] = amt.Bytes()
+	case kAddFT:
+		if bound || amt.Sign() != 0 { // unbound, amount 0: only touches the object
+			acct.Store[slot] = cur.Add(cur, amt).Bytes()
+		}
+	case kSubFT:
+		if bound {
+			if cur.Cmp(amt) >= 0 {
+				acct.Store[slot] = cur.Sub(cur, amt).Bytes()
+			}
+		} else if amt.Sign() != 0 && len(acct.Store[slot]) > 0 && cur.Cmp(amt) >= 0 {
+			acct.Store[slot] = cur.Sub(cur, amt).Bytes()
+		}
 	}
 }
